@@ -11,6 +11,7 @@ import (
 	"runtime"
 	"sort"
 	"strings"
+	"sync"
 	"sync/atomic"
 	"syscall"
 	"testing"
@@ -100,6 +101,18 @@ type IsolatedResult struct {
 	Sig      string // "" = fine
 	Detail   string
 	MaxRSSKB int64
+}
+
+var (
+	raceMu       sync.Mutex
+	raceFailures []Failure
+)
+
+// RaceFail records an oracle failure observed by a free-running (race pass) body.
+func RaceFail(sig, detail string) {
+	raceMu.Lock()
+	raceFailures = append(raceFailures, Failure{Sig: sig, Detail: detail})
+	raceMu.Unlock()
 }
 
 // RunIsolated executes scenario scn's Child function on input in a fresh process of the same test
@@ -258,6 +271,16 @@ func Main(t *testing.T) {
 				s.Race()
 				rep.Execs++
 			}
+			raceMu.Lock()
+			seenRF := map[string]bool{}
+			for _, f := range raceFailures {
+				if !seenRF[f.Sig] {
+					seenRF[f.Sig] = true
+					rep.Violations = append(rep.Violations, CustomViolation(name, f.Sig, f.Detail, map[string]bool{"race": true}))
+				}
+			}
+			raceFailures = nil
+			raceMu.Unlock()
 			rep.States, rep.Transitions, rep.Distinct = rep.Execs, rep.Execs, rep.Execs
 			out.Reports = append(out.Reports, rep)
 			continue
